@@ -13,6 +13,7 @@ import (
 	"os"
 	"sort"
 	"strings"
+	"time"
 
 	"github.com/hyperjumptech/grule-rule-engine/ast"
 	"github.com/hyperjumptech/grule-rule-engine/builder"
@@ -39,6 +40,8 @@ type LFact struct {
 	X, Y, Z int64
 	A, Bv   int64
 	S       string
+	// one field per (rule, text variant), always 0: a text mentions a variable that no other text mentions
+	WA1, WA2, WB1, WB2, WC1, WC2 int64
 }
 
 // ruleText gives the GRL of rule `name` in text variant t. The variants of one name differ in condition,
@@ -46,11 +49,11 @@ type LFact struct {
 func ruleText(name string, t int) string {
 	switch name {
 	case "A":
-		return fmt.Sprintf(`rule A "A%d" salience %d { when F.X == %d && F.Z == 0 then F.A = %d; Retract("A"); }`, t, t, t, t)
+		return fmt.Sprintf(`rule A "A%d" salience %d { when F.X == %d && F.Z == 0 && F.WA%d == 0 then F.A = %d; Retract("A"); }`, t, t, t, t, t)
 	case "B":
-		return fmt.Sprintf(`rule B "B%d" salience %d { when F.Y == %d && F.Z == 0 then F.Bv = %d; Retract("B"); }`, t, t+2, t, t)
+		return fmt.Sprintf(`rule B "B%d" salience %d { when F.Y == %d && F.Z == 0 && F.WB%d == 0 then F.Bv = %d; Retract("B"); }`, t, t+2, t, t, t)
 	case "C":
-		return fmt.Sprintf(`rule C "C%d" salience %d { when F.X == %d && F.Y == %d then F.A = %d; F.Bv = %d; Retract("C"); }`, t, t+4, t, t, t+10, t+10)
+		return fmt.Sprintf(`rule C "C%d" salience %d { when F.X == %d && F.Y == %d && F.WC%d == 0 then F.A = %d; F.Bv = %d; Retract("C"); }`, t, t+4, t, t, t, t+10, t+10)
 	}
 	panic("unknown rule " + name)
 }
@@ -204,6 +207,12 @@ func replayHistory(raw json.RawMessage, steps []LStep, salt int) (mm *mismatch) 
 			insts[st.Inst-1].RemoveRuleEntry(st.Name)
 		case "inst":
 			var kb *ast.KnowledgeBase
+			if (i+salt)%2 == 0 {
+				// asking for a version that does not exist is answered with an error and changes nothing (a stuttering step)
+				if none, e := lib.NewKnowledgeBaseInstance(st.Kb, "no-such-version"); e == nil || none != nil {
+					return &mismatch{Hist: raw, Step: i, Op: st.Op, Kind: "unknown-version", Want: "an error", Got: "an instance"}
+				}
+			}
 			kb, err = lib.NewKnowledgeBaseInstance(st.Kb, "1")
 			if err == nil {
 				insts = append(insts, kb)
@@ -308,12 +317,25 @@ func cmdLibReplay(args []string) {
 		for _, s := range h {
 			ops[s.Op]++
 		}
-		if mm := replayHistory(raw, h, *salt+n); mm != nil {
+		// (a history that does not come back - a lock left behind - is reported; the process then stops: its libraries are wedged)
+		done := make(chan *mismatch, 1)
+		go func() { done <- replayHistory(raw, h, *salt+n) }()
+		var mm *mismatch
+		hung := false
+		select {
+		case mm = <-done:
+		case <-time.After(20 * time.Second):
+			mm, hung = &mismatch{Hist: raw, Step: -1, Kind: "hang", Want: "every call returns", Got: "the history did not finish within 20 s"}, true
+		}
+		if mm != nil {
 			bad++
 			kinds[mm.Kind+"@"+mm.Op]++
 			b, _ := json.Marshal(mm)
 			w.Write(b)
 			w.WriteByte('\n')
+		}
+		if hung {
+			break
 		}
 	}
 	st, _ := json.Marshal(J{"histories": n, "steps": steps, "diverging": bad, "kinds": kinds, "ops": ops})
